@@ -187,8 +187,42 @@ pub fn run_semantic(prop: &str, trace: &Trace, env: &Env, opts: &SemOpts) -> Run
         match &ev.op {
             Op::Admin(op) => {
                 let before: Vec<CallObs> = if matches!(op, AdminOp::UpdateCurrency { .. }) { opts.rate_probes.iter().map(|(l, st, _)| w.execute(l, &render_stmt(st, &w.cfg.fmt), &ev.clock).0).collect() } else { vec![] };
+                // what the calculator says its default zone is, and what a bare time of day looks like, before the call
+                let zone_before = if let AdminOp::SetTimezone { .. } = op { let z = w.calc.get_time_offset(); Some(((z.name.clone(), z.offset), w.execute("en", "12:34", &ev.clock).0)) } else { None };
                 let o = w.admin(op, &ev.clock);
                 let expected = w.cfg.apply(&env.data, op);
+                if let (AdminOp::SetTimezone { tz }, Some((zb, pb))) = (op, &zone_before) {
+                    let z = w.calc.get_time_offset();
+                    let za = (z.name.clone(), z.offset);
+                    let trailer = expected.is_none() && crate::world::zone_with_trailer(&env.data, tz);
+                    match &o {
+                        AdminObs::Res(Err(_)) => {
+                            // a refused call has configured nothing: the default zone is still the previous one
+                            rep.judged += 1;
+                            rep.count("probe.refused_zone_changes_nothing");
+                            let pa = w.execute("en", "12:34", &ev.clock).0;
+                            rep.evaluations += 2;
+                            if &za != zb || &pa != pb {
+                                rep.violate("O-survivors", format!("{}:refused-set_timezone-changed-the-default-zone", prop), ei, format!("{:?} was refused, yet the default zone went from {:?} to {:?} and '12:34' from {} to {}", op, zb, za, pb.short(), pa.short()));
+                            }
+                        }
+                        AdminObs::Res(Ok(())) if trailer => {
+                            // leniently accepted: whatever it configured must be a zone of the table under its own offset
+                            rep.judged += 1;
+                            rep.count("admin.zone_with_trailer_accepted");
+                            if env.data.zones.get(&za.0) == Some(&za.1) { w.cfg.zone = za.clone(); }
+                            else { rep.violate("O-model", format!("{}:accepted-zone-inconsistent", prop), ei, format!("{:?} was accepted and configured {:?}, which is no zone of the table under its own offset", op, za)); }
+                        }
+                        AdminObs::Res(Ok(())) => {
+                            if expected.is_some() {
+                                rep.judged += 1;
+                                rep.count("probe.accepted_zone_read_back");
+                                if za.1 != w.cfg.zone.1 || (env.data.zones.contains_key(&w.cfg.zone.0) && za.0 != w.cfg.zone.0) { rep.violate("O-model", format!("{}:accepted-zone-read-back", prop), ei, format!("{:?} was accepted; get_time_offset() says {:?}, the configuration model {:?}", op, za, w.cfg.zone)); }
+                            }
+                        }
+                        _ => {}
+                    }
+                }
                 if let AdminOp::UpdateCurrency { name, .. } = op {
                     let updated = env.data.read_currency(name);
                     for (k, (l, st, involved)) in opts.rate_probes.iter().enumerate() {
@@ -219,7 +253,7 @@ pub fn run_semantic(prop: &str, trace: &Trace, env: &Env, opts: &SemOpts) -> Run
                     match (&expected, &o) {
                         (_, AdminObs::Unwound(p)) => rep.violate("O-model", format!("{}:admin-{}", prop, p.key()), ei, format!("{:?} panicked: {} at {}", op, p.msg, p.loc)),
                         (Some(e), o) if e != o => rep.violate("O-model", format!("{}:admin-return:{}", prop, op.kind()), ei, format!("{:?} returned {:?}, the configuration model says {:?}", op, o, e)),
-                        (None, AdminObs::Res(Ok(()))) if matches!(op, AdminOp::SetTimezone { .. }) => rep.violate("O-model", format!("{}:admin-accepted-invalid-zone", prop), ei, format!("{:?} was accepted but names no zone of the table and no GMT offset", op)),
+                        (None, AdminObs::Res(Ok(()))) if matches!(op, AdminOp::SetTimezone { tz } if !crate::world::zone_with_trailer(&env.data, tz)) => rep.violate("O-model", format!("{}:admin-accepted-invalid-zone", prop), ei, format!("{:?} was accepted but names no zone of the table and no GMT offset", op)),
                         _ => {}
                     }
                 }
